@@ -4,8 +4,9 @@
 //  * is_reserved_precompile_address (precompiles/mod.rs): a pure predicate of the 20 address bytes — uninterpreted `eth_is_reserved_precompile`.
 //  * Precompiles::call_precompile (precompiles/mod.rs + evm.rs / fvm.rs / bls*.rs): the precompile dispatch as an OPAQUE callee. Assumed
 //    only what every System method guarantees (frame: `readonly`, the transient lifespan, the message and `in_tx` are unchanged; messages
-//    are only appended; the cache stays coherent — its only side effects are `System::send_raw` (call_actor) and `System::transfer`,
-//    both under contract in units/C19/evm_system.vx.rs). Its result is an uninterpreted function of nothing: any bytes, any error.
+//    are only appended; when it returns Ok the cache is coherent, given that `readonly` reflects the runtime (`ro_inv`) — its only side
+//    effects are `System::send_raw` (call_actor; an outer error of send_raw makes the precompile fail) and `System::transfer`, both under
+//    contract here / in units/C19/evm_system.vx.rs). Its result is unconstrained: any bytes, any error.
 //  * Precompiles::is_precompile: uninterpreted `eth_is_precompile` (a pure predicate of the address bytes).
 //  * get_contract_type (instructions/ext.rs): ASSUMED at the meaning of its body (an Option::and_then / map / unwrap_or closure chain
 //    Verus cannot take): `contract_type_spec`, written from the code — Precompile for precompile addresses; otherwise resolve the
@@ -29,7 +30,8 @@ pub mod precompiles {
         #[verifier::external_body]
         pub fn call_precompile(system: &mut System, precompile_addr: &EthAddress, input: &[u8], context: PrecompileContext) -> (r: Result<Vec<u8>, PrecompileError>)
             requires coh(old(system)), !old(system).rt.in_tx@,
-            ensures sys_frame(old(system), final(system)), sends_extended(old(system).rt, final(system).rt), coh(final(system)),
+            ensures sys_frame(old(system), final(system)), sends_extended(old(system).rt, final(system).rt),
+                r.is_ok() && ro_inv(old(system)) ==> coh(final(system)),
         { unimplemented!() }
         #[verifier::external_body]
         pub fn is_precompile(addr: &EthAddress) -> (r: bool) ensures r == eth_is_precompile(*addr) { unimplemented!() }
